@@ -92,10 +92,10 @@ MODELS = {
             'thorough': [model(5, 2, toks=(PLAIN, TOK_COMMA, TOK_QUOTE), programs=PUNCTP[:2] + PUNCTP[3:]),
                          model(4, 3, MaxChain=2, toks=(PLAIN, TOK_COMMA, TOK_QUOTE, TOK_REL), programs=PUNCTP)]},
     'C14': {'quick': [model(5, 2, toks=(PLAIN, TOK_HD), labels=('X', 'X-1'), programs=[[NEGRA, BIN], [NEGRA, BINB], [BIN]]),
-                      model(3, 5, MaxChain=4, labels=('A', 'B'), NMin=2, programs=[[COL, UNC]])],
+                      model(3, 5, MaxChain=4, labels=('A', 'B'), programs=[[COL, UNC]])],
             'thorough': [model(6, 2, toks=(PLAIN, TOK_HD), labels=('X', 'X-1'), programs=[[NEGRA, BIN], [NEGRA, BINB], [BIN]]),
                          model(5, 3, toks=(PLAIN, TOK_HD), labels=('X',), programs=[[NEGRA, BIN]]),
-                         model(3, 6, MaxChain=4, labels=('A', 'B'), NMin=2, programs=[[COL, UNC]])]},
+                         model(3, 6, MaxChain=4, labels=('A', 'B'), programs=[[COL, UNC]])]},
     'C15': {'quick': [model(4, 2, toks=(PLAIN, TOK_HD, TOK_NK), edges=('--', 'HD', 'NK'), programs=[[NEGRA]])],
             'thorough': [model(4, 3, toks=(PLAIN, TOK_HD, TOK_NK), edges=('--', 'HD', 'NK'), programs=[[NEGRA]]),
                          model(5, 2, toks=(PLAIN, TOK_HD, TOK_NK), edges=('--', 'HD', 'NK'), programs=[[NEGRA]])]},
@@ -291,7 +291,7 @@ def random_cases(prop, tier, seed, mods):
         prog = rnd.choice(RANDOM_PROGRAMS[prop])
         if prop == 'C11':
             prog = [o for o in prog if not (o['name'] == 'delete_terminal' and (o['pos'] > T['n'] or T['n'] < 2))]
-        if T['n'] < 2:
+        if T['n'] < 2 and [o['name'] for o in prog] != ['collapse_unary_chains', 'uncollapse_unary_chains']:
             prog = [o for o in prog if o['name'] not in ('collapse_unary_chains', 'uncollapse_unary_chains')]
         out.append(ft.record_case('R-%05d' % k, T, prog, mods, seed + k, origin='random'))
     return out
